@@ -203,7 +203,10 @@ def run_case(ctx, case):
     pre = ds[["v" if mode == "hist" else "y"]]
     for d_, o_ in order_of.items():
         pre = pre.sel({d_: o_})
-    if not np.isfinite(np.asarray(pre["v" if mode == "hist" else "y"].values, dtype=float)).any():
+    _vals = np.asarray(pre["v" if mode == "hist" else "y"].values, dtype=float)
+    _fin = _vals[np.isfinite(_vals)]
+    if not len(_fin) or (mode == "hist" and case["bins"] != "edges" and len(np.unique(_fin)) < 2):
+        # (automatic bins of a single distinct value have zero width: no density is defined)
         ctx.count("degenerate_skipped")
         ctx.observe(case, nontrivial=False)
         return
